@@ -1,0 +1,240 @@
+//! Verification hooks, compiled only with `--cfg rusty_blockparser_verif`.
+//! Selected by the environment variable `RBP_VERIF_HOOK`; every hook reads one request per
+//! stdin line and answers with one line on stdout. Nothing here changes the parser itself.
+use std::io::{self, BufRead, Cursor, Read, Seek, SeekFrom, Write};
+use std::panic;
+use std::str::FromStr;
+
+use seek_bufread::BufReader;
+
+use crate::blockchain::parser::reader::{BlockchainRead, XorReader};
+use crate::blockchain::parser::types::CoinType;
+use crate::blockchain::parser::verif as parser_verif;
+use crate::blockchain::proto::block;
+use crate::blockchain::proto::script::{self, ScriptPattern};
+use crate::blockchain::proto::ToRaw;
+use crate::common::utils;
+use bitcoin::hashes::{sha256d, Hash};
+
+/// Returns true if a hook handled this invocation.
+pub fn dispatch() -> bool {
+    let hook = match std::env::var("RBP_VERIF_HOOK") {
+        Ok(h) => h,
+        Err(_) => return false,
+    };
+    panic::set_hook(Box::new(|_| {}));
+    let f: fn(&str) -> String = match hook.as_str() {
+        "script-eval" => script_eval,
+        "get-mean" => get_mean,
+        "base-reward" => base_reward,
+        "merkle-root" => merkle_root,
+        "xor-reader" => xor_reader,
+        "parse-block" => parse_block,
+        "index-record" => index_record,
+        "blk-name" => blk_name,
+        _ => return false,
+    };
+    let stdin = io::stdin();
+    let stdout = io::stdout();
+    let mut out = io::BufWriter::new(stdout.lock());
+    for line in stdin.lock().lines() {
+        let line = line.unwrap();
+        let res = panic::catch_unwind(|| f(&line));
+        match res {
+            Ok(s) => writeln!(out, "{}", s).unwrap(),
+            Err(e) => {
+                let msg = e
+                    .downcast_ref::<String>()
+                    .cloned()
+                    .or_else(|| e.downcast_ref::<&str>().map(|s| s.to_string()))
+                    .unwrap_or_default();
+                writeln!(out, "PANIC|{}", msg.replace('\n', " ")).unwrap();
+            }
+        }
+    }
+    out.flush().unwrap();
+    true
+}
+
+fn unhex(s: &str) -> Vec<u8> {
+    if s == "-" {
+        return vec![];
+    }
+    utils::hex_to_vec(s)
+}
+
+/// `<version_id hex> <script hex>` -> `pattern|address|op_return payload hex`
+fn script_eval(line: &str) -> String {
+    let mut it = line.split_whitespace();
+    let version_id = u8::from_str_radix(it.next().unwrap(), 16).unwrap();
+    let bytes = unhex(it.next().unwrap_or("-"));
+    let s = script::eval_from_bytes(&bytes, version_id);
+    let payload = match &s.pattern {
+        ScriptPattern::OpReturn(d) => {
+            if d.is_empty() {
+                String::from("-")
+            } else {
+                utils::arr_to_hex(d.as_bytes())
+            }
+        }
+        _ => String::from("-"),
+    };
+    format!(
+        "{}|{}|{}",
+        s.pattern,
+        s.address.unwrap_or_else(|| String::from("-")),
+        payload
+    )
+}
+
+/// `<u32> <u32> ...` -> `{:?}` of the f64 mean
+fn get_mean(line: &str) -> String {
+    let v: Vec<u32> = line
+        .split_whitespace()
+        .map(|x| x.parse().unwrap())
+        .collect();
+    format!("{:?}", utils::get_mean(&v))
+}
+
+/// `<height>` -> base reward
+fn base_reward(line: &str) -> String {
+    let h: u64 = line.trim().parse().unwrap();
+    format!("{}", block::get_base_reward(h))
+}
+
+/// `<hash hex> <hash hex> ...` (internal byte order) -> merkle root hex (internal byte order)
+fn merkle_root(line: &str) -> String {
+    let hashes: Vec<sha256d::Hash> = line
+        .split_whitespace()
+        .map(|h| sha256d::Hash::from_slice(&unhex(h)).unwrap())
+        .collect();
+    utils::arr_to_hex(utils::merkle_root(hashes).as_byte_array())
+}
+
+/// Inner reader that hands out at most `chunks[i % len]` bytes per `read` call.
+struct ShortReader {
+    inner: Cursor<Vec<u8>>,
+    chunks: Vec<usize>,
+    calls: usize,
+}
+
+impl Read for ShortReader {
+    fn read(&mut self, buf: &mut [u8]) -> io::Result<usize> {
+        let lim = if self.chunks.is_empty() {
+            buf.len()
+        } else {
+            let c = self.chunks[self.calls % self.chunks.len()];
+            self.calls += 1;
+            c.min(buf.len()).max(1.min(buf.len()))
+        };
+        self.inner.read(&mut buf[..lim])
+    }
+}
+
+impl Seek for ShortReader {
+    fn seek(&mut self, pos: SeekFrom) -> io::Result<u64> {
+        self.inner.seek(pos)
+    }
+}
+
+/// `<file hex> <key hex|-> <bufsize> <chunks a,b,..|-> <ops>` with ops `s<pos>` (seek from start) and
+/// `r<n>` (read_exact n) separated by commas -> per op `S<pos>`, `R<hex>` or `E`, joined by commas
+fn xor_reader(line: &str) -> String {
+    let mut it = line.split_whitespace();
+    let data = unhex(it.next().unwrap());
+    let key = match it.next().unwrap() {
+        "-" => None,
+        k => Some(unhex(k)),
+    };
+    let bufsize: usize = it.next().unwrap().parse().unwrap();
+    let chunks: Vec<usize> = match it.next().unwrap() {
+        "-" => vec![],
+        c => c.split(',').map(|x| x.parse().unwrap()).collect(),
+    };
+    let inner = ShortReader {
+        inner: Cursor::new(data),
+        chunks,
+        calls: 0,
+    };
+    let mut reader = XorReader::new(BufReader::with_capacity(bufsize, inner), key);
+    let mut out = Vec::new();
+    for op in it.next().unwrap_or("").split(',').filter(|o| !o.is_empty()) {
+        let n: u64 = op[1..].parse().unwrap();
+        match &op[..1] {
+            "s" => match reader.seek(SeekFrom::Start(n)) {
+                Ok(p) => out.push(format!("S{}", p)),
+                Err(_) => out.push(String::from("E")),
+            },
+            _ => {
+                let mut buf = vec![0u8; n as usize];
+                match reader.read_exact(&mut buf) {
+                    Ok(()) => out.push(format!("R{}", utils::arr_to_hex(&buf))),
+                    Err(_) => out.push(String::from("E")),
+                }
+            }
+        }
+    }
+    out.join(",")
+}
+
+/// `<coin name> <size> <block hex>` -> `ok|<consumed>|<block hash>|<header fields>|<aux 0/1>|<tx_count>|tx;tx;...`
+/// with tx = `txid:version:locktime:in_count:out_count:<to_bytes hex>` or `err|<message>`
+fn parse_block(line: &str) -> String {
+    let mut it = line.split_whitespace();
+    let coin = CoinType::from_str(it.next().unwrap()).unwrap();
+    let size: u32 = it.next().unwrap().parse().unwrap();
+    let data = unhex(it.next().unwrap_or("-"));
+    let mut cur = Cursor::new(data);
+    match cur.read_block(size, &coin) {
+        Ok(b) => {
+            let h = &b.header.value;
+            let txs: Vec<String> = b
+                .txs
+                .iter()
+                .map(|t| {
+                    format!(
+                        "{}:{}:{}:{}:{}:{}",
+                        t.hash,
+                        t.value.version,
+                        t.value.locktime,
+                        t.value.in_count.value,
+                        t.value.out_count.value,
+                        utils::arr_to_hex(&t.value.to_bytes())
+                    )
+                })
+                .collect();
+            format!(
+                "ok|{}|{}|{},{},{},{},{},{}|{}|{}|{}|{}",
+                cur.position(),
+                b.header.hash,
+                h.version,
+                h.prev_hash,
+                h.merkle_root,
+                h.timestamp,
+                h.bits,
+                h.nonce,
+                b.aux_pow_extension.is_some() as u8,
+                b.tx_count.value,
+                b.size,
+                txs.join(";")
+            )
+        }
+        Err(e) => format!("err|{}", e.to_string().replace('\n', " ")),
+    }
+}
+
+/// `<key hex (without the leading 'b')> <value hex>` -> `ok|height|status|file|offset|admitted` or `err|..`
+fn index_record(line: &str) -> String {
+    let mut it = line.split_whitespace();
+    let key = unhex(it.next().unwrap());
+    let value = unhex(it.next().unwrap_or("-"));
+    parser_verif::decode_record(&key, &value)
+}
+
+/// `<file name>` -> parsed blk index or `none`
+fn blk_name(line: &str) -> String {
+    match parser_verif::parse_blk_index(line) {
+        Some(n) => format!("{}", n),
+        None => String::from("none"),
+    }
+}
